@@ -229,7 +229,11 @@ def r_merge(ck: Checker) -> None:
     func = ck.func(f"{G}.new_sum")
     it = ck.interp(func)
     ups = [c for c in attr_calls(func, "update") if kwarg(c, "terms") is not None]
-    tags = [unparse(kwarg(c, "terms")).replace(" ", "") for c in ups]  # type: ignore[arg-type]
+    def _tagged(text: str) -> str:
+        """a tag helper that was substituted into the tree is read back as a call of `agg_ident`"""
+        return re.sub(r"Function\(LOC,AGG_STR,\[SymbolicTerm\(LOC,clingo\.Number\((.*?)\)\)\],False\)", r"agg_ident(\1)", text)
+
+    tags = [_tagged(unparse(kwarg(c, "terms")).replace(" ", "")) for c in ups]  # type: ignore[arg-type]
     m0 = re.fullmatch(r"\[\*(\w+)\.terms,(\w+)\(0\)\]", tags[0]) if len(tags) == 2 else None
     m1 = re.fullmatch(r"\[\*(\w+)\.terms,(\w+)\((\w+)\)\]", tags[1]) if len(tags) == 2 else None
     tagger = m0.group(2) if m0 else "agg_ident"
@@ -256,7 +260,7 @@ def r_merge(ck: Checker) -> None:
     rest = resolved_calls(ck.prg, func, "clingo.ast.BodyAggregateElement")
     lp_r = enclosing_loop(func, rest[0]) if rest else None
     tgt = [unparse(e) for e in lp_r.target.elts] if lp_r is not None and isinstance(lp_r.target, ast.Tuple) and len(lp_r.target.elts) == 2 else ["?", "?"]
-    ok = len(rest) == 1 and lp_r is not None and unparse(lp_r.iter) == "enumerate(rest)" and unparse(rest[0].args[0]).replace(" ", "") == f"[{tgt[1]},{tagger}(len(aggs)+{tgt[0]})]"
+    ok = len(rest) == 1 and lp_r is not None and unparse(lp_r.iter) == "enumerate(rest)" and _tagged(unparse(rest[0].args[0]).replace(" ", "")) == f"[{tgt[1]},{tagger}(len(aggs)+{tgt[0]})]"
     ck.add("plain summands get tags beyond the aggregates' indices", ok, func, rest[0] if rest else func.node, f"`{fmt(rest[0]) if rest else None}`", "")
     fin = [c for c in attr_calls(func, "update") if kwarg(c, "function") is not None]
     ck.add("a merged aggregate is a #sum", len(fin) == 1 and unparse(kwarg(fin[0], "function")) == "AggregateFunction.Sum", func, func.node, f"`{fmt(fin[0]) if fin else None}`", "")  # type: ignore[arg-type]
@@ -300,6 +304,12 @@ def r_merge(ck: Checker) -> None:
     ck.add("a factor scales the weight (first term) of every element only", len(scaled) == 1 and unparse(scaled[0].value).replace(" ", "") == "BinaryOperation(LOC,BinaryOperator.Multiplication,newterms[0],factor)", mul, mul.node, f"`{fmt(scaled[0]) if scaled else None}`", "")  # type: ignore[attr-defined]
     rs = [r for r in find_nodes(mul.node, lambda n: isinstance(n, ast.Raise))]
     ck.add("products of two aggregates and of min/max aggregates are refused", len(rs) == 2, mul, mul.node, f"{len(rs)} refusals", "")
+    for sc in scaled:
+        okq = itm.holds(sc, "collector.function not in (AggregateFunction.Min, AggregateFunction.Max)")
+        ck.add("weights of a #min/#max aggregate are never scaled", okq, mul, sc, f"`{fmt(sc)}` dominated by `collector.function not in (Min, Max)`: {okq}",
+               "`c * #max{W}` is `#max{c*W}` only for c > 0: a negative constant swaps minimum and maximum (-2 * #max{1;3} = -6, #max{-2;-6} = -2), and the sign of a factor is not known statically")
+        ok1 = itm.holds(sc, "not len(aggs) > 1")
+        ck.add("weights are scaled only when the product has a single aggregate", ok1, mul, sc, f"dominated by `not len(aggs) > 1`: {ok1}", "a product of two aggregates is no aggregate")
 
 
 # ------------------------------------------------------------------------------------------------ C06
@@ -402,6 +412,32 @@ def r_unify_table(ck: Checker) -> None:
         ok_f = ok_f and bool(nxt_) and isinstance(nxt_[0], ast.Return) and is_const(nxt_[0].value, True)
     ck.add("(Function, Function): equal name and arity and pairwise unifying arguments, position by position", ok_f, func, func.node, f"loop over `{sorted(shapes)}` with 'cannot unify' exactly when a pair cannot, name and arity tested before: {ok_f}",
            "comparing every argument of one term with every argument of the other (a product instead of a zip) calls `cost(soft,1)` and `cost(soft,N)` different although N may be 1: two objective tuples that can coincide are treated as distinct and counted twice")
+    # the entry point: 'cannot unify' only when no pair of unpooled alternatives may unify (nothing is decided before)
+    top = ck.func("utils.ast:potentially_unifying")
+    itt = ck.interp(top)
+    tl, tr = top.params()[:2]
+    cond_t = f"not any(map(lambda x: _potentially_unifying(x[0], x[1]), product({tl}.unpool(), {tr}.unpool())))"
+    n_neg = 0
+    for r_t in returns_of(top):
+        if is_const(r_t.value, True) or not itt.reachable(r_t):
+            continue
+        n_neg += 1
+        ok_t = is_const(r_t.value, False) and itt.holds(r_t, cond_t)
+        if not ok_t and isinstance(r_t.value, ast.expr) and enclosing_loop(top, r_t) is None and same(unparse(r_t.value), cond_t[4:]):
+            ok_t = True  # `return any(...)`
+        if not ok_t and is_const(r_t.value, False):
+            # the search loop `return any(...)` abbreviates: the only way past the loop is that no pair matched
+            from .util import block_of as _block_of
+            blk_t = _block_of(top, r_t) or []
+            prev_t = [s_ for k_, s_ in enumerate(blk_t) if k_ + 1 < len(blk_t) and blk_t[k_ + 1] is r_t]
+            if prev_t and isinstance(prev_t[0], ast.For) and same(unparse(prev_t[0].iter), f"product({tl}.unpool(), {tr}.unpool())") and len(prev_t[0].body) == 1 and isinstance(prev_t[0].body[0], ast.If) and not prev_t[0].orelse:
+                tg = prev_t[0].target
+                pair_t = f"{unparse(tg)}[0], {unparse(tg)}[1]" if isinstance(tg, ast.Name) else ", ".join(unparse(e) for e in tg.elts)  # type: ignore[attr-defined]
+                if_t = prev_t[0].body[0]
+                ok_t = unparse(if_t.test).replace(" ", "") in (f"_potentially_unifying({pair_t})".replace(" ", ""), f"_potentially_unifying(*{unparse(tg)})") and len(if_t.body) == 1 and isinstance(if_t.body[0], ast.Return) and is_const(if_t.body[0].value, True) and not if_t.orelse
+        ck.add("potentially_unifying answers 'cannot unify' only if no pair of unpooled alternatives may unify", ok_t, top, r_t, f"`{fmt(r_t)}` dominated by `{short(cond_t, 90)}`: {ok_t}",
+               "a shortcut taken before the term-by-term table (e.g. `lhs == rhs` for a constant against an arithmetic term) calls `G+1` and `2` different although G may be 1: tuples that can coincide are treated as distinct")
+    ck.need(n_neg >= 1 or any(not is_const(x.value, True) for x in returns_of(top)), "potentially_unifying can answer 'cannot unify'")
     seq = ck.func("utils.ast:potentially_unifying_sequence")
     its = ck.interp(seq)
     # (the normal form writes `return all(f(x) for x in xs)` as the search loop it abbreviates)
